@@ -58,8 +58,8 @@ c.finish(
         "H-float: strconv.ParseFloat(strconv.FormatFloat(x,'f',-1,64) [+ '.']) == x and FormatFloat's output matches "
         "-?[0-9]+(\\.[0-9]+)?; a Real is its decimal token in the model (theorem real_value_rt states the dependency); "
         "exercised on special and random float64 values, not proved",
-        "limits: strings < maxStringBytes, names < maxNameBytes, arrays <= maxArrayLen with two free slots while a "
-        "reference is being read (Wf.arr_fits), dictionaries <= maxDictLen written entries, nesting < maxScannerNestDepth "
+        "limits: strings < maxStringBytes, names < maxNameBytes, arrays <= maxArrayLen (one transient element beyond the limit while a "
+        "reference is being read, Wf.arr_fits), dictionaries <= maxDictLen written entries, nesting < maxScannerNestDepth "
         "(one level is used by the wrapper array of the hook VerifParseObjects)",
         "OptDictTypes / OptTrimStandardFonts / OptTextStringUtf8 / OptContentStream do not act on native values; the "
         "harness checks all 32 combinations on the implementation",
@@ -71,9 +71,10 @@ c.finish(
         "hook /repo/verif_c01.go (build tag verif): VerifParseObjectsPos = newScanner + the real ReadArray; VerifSetLimits",
     ],
     partial=[
-        "limits_reject_partial: rejection at the limit is proved for strings (literal form) and names for all inputs; "
-        "for arrays, dictionaries and nesting depth the full statement (Definition limits_reject_full) is only "
-        "checked on instances (Examples limits_reject_array/_dict/_depth) and by the harness with shrunk limits",
+        "limits_reject_partial / limits_reject_array: rejection at the limit is proved for strings (literal form), names "
+        "and arrays without references, for all inputs; for arrays with references, dictionaries and nesting depth the "
+        "full statement (Definition limits_reject_full) is only checked on instances (Examples limits_reject_array_ex/"
+        "_dict/_depth) and by the harness with shrunk limits",
         "real_rt / real_value_rt: a real is its decimal token; float<->text is the external hypothesis H-float",
     ],
 )
